@@ -1,11 +1,14 @@
 #!/venv/bin/python
-"""Run the registered quick checks against every seeded change under
-/verif/seeded/<id>/patch.diff: apply the patch to /repo, run, undo straight
-afterwards.  Prints which checks catch which change and writes
-/verif/seeded/RESULTS.json.
+"""Run every registered quick check against every seeded change under /verif/seeded/<id>/patch.diff.
+
+The patch is applied to a scratch copy of /repo's committed tree (git archive of HEAD into $TMPDIR, removed
+afterwards); /repo itself is never touched, so this can run while other work goes on.  Prints which checks catch
+which change and writes /verif/seeded/RESULTS.json.  (The manual equivalent, as described in the brief:
+`git -C /repo apply <patch>; <quick_cmd>; git -C /repo checkout -- .`.)
 
 usage: run_seeded.py [seed ids...]   (default: all)"""
-import json, os, subprocess, sys
+import json, os, shutil, subprocess, sys, tempfile
+from concurrent.futures import ThreadPoolExecutor
 
 V = "/verif"
 
@@ -16,47 +19,57 @@ def sh(cmd, cwd=None):
 
 
 def main():
-    rc, out = sh("git -C /repo status --porcelain --untracked-files=no")
-    if out.strip():
-        print("/repo has uncommitted changes, refusing to run"); sys.exit(2)
     man = json.load(open(f"{V}/MANIFEST.json"))
-    checks = {c["property_id"]: c["quick_cmd"] for c in man["checks"]}
-    seeds = sys.argv[1:] or sorted(d for d in os.listdir(f"{V}/seeded") if os.path.exists(f"{V}/seeded/{d}/patch.diff"))
-    results = {}
+    checks = [c["property_id"] for c in man["checks"]]
+    seeds = [a for a in sys.argv[1:]] or sorted(d for d in os.listdir(f"{V}/seeded") if os.path.exists(f"{V}/seeded/{d}/patch.diff"))
     rp = f"{V}/seeded/RESULTS.json"
-    if os.path.exists(rp) and sys.argv[1:]:
-        results = json.load(open(rp))
-    for s in seeds:
-        patch = f"{V}/seeded/{s}/patch.diff"
+    results = json.load(open(rp)) if os.path.exists(rp) and sys.argv[1:] else {}
+    base = tempfile.mkdtemp(prefix="seedbase_")
+    rc, out = sh(f"git -C /repo archive HEAD pydcop | tar -x -C {base}")
+    if rc:
+        print(out)
+        sys.exit(2)
+    head = sh("git -C /repo rev-parse --short HEAD")[1].strip()
+
+    def one(s):
         meta = json.load(open(f"{V}/seeded/{s}/meta.json")) if os.path.exists(f"{V}/seeded/{s}/meta.json") else {}
         prop = meta.get("property", s.split("_")[0])
-        rc, out = sh(f"git -C /repo apply {patch}")
-        if rc:
-            results[s] = {"property": prop, "error": "patch does not apply: " + out[-200:]}
-            print(s, "PATCH DOES NOT APPLY")
-            continue
-        caught = {}
+        tmp = tempfile.mkdtemp(prefix=f"seed_{s}_")
         try:
-            for pid, cmd in checks.items():
-                rc, out = sh(cmd, cwd=V)
-                if rc == 1:
-                    lines = [l.strip() for l in out.splitlines() if l.startswith("  pydcop")]
-                    caught[pid] = lines[:3]
-                elif rc != 0:
-                    caught[pid] = ["exit %d: " % rc + out.strip().splitlines()[-1][:200]]
+            shutil.copytree(os.path.join(base, "pydcop"), os.path.join(tmp, "pydcop"))
+            rc, out = sh(f"patch -p1 -s -i {V}/seeded/{s}/patch.diff", cwd=tmp)
+            if rc:
+                return s, {"property": prop, "error": "patch does not apply: " + out[-200:]}
+            caught = {}
+            for pid in checks:
+                env = dict(os.environ, PDV_EVIDENCE_DIR=os.path.join(tmp, "evidence"))
+                p = subprocess.run(["/venv/bin/python", "check.py", pid, "--tier", "quick", "--repo", tmp], cwd=V, env=env,
+                                   stdout=subprocess.PIPE, stderr=subprocess.STDOUT, text=True)
+                if p.returncode == 1:
+                    caught[pid] = [l.strip() for l in p.stdout.splitlines() if l.startswith("  pydcop")][:3]
+                elif p.returncode != 0:
+                    caught[pid] = ["exit %d: " % p.returncode + (p.stdout.strip().splitlines() or [""])[-1][:200]]
+            own = prop in caught and not caught[prop][0].startswith("exit 2")
+            return s, {"property": prop, "own_check_built": prop in checks, "caught_by_own_check": own, "caught_by": caught,
+                       "summary": meta.get("summary", "")[:200], "repo_head": head}
         finally:
-            sh("git -C /repo checkout -- .")
-        own = prop in caught
-        results[s] = {"property": prop, "own_check_built": prop in checks, "caught_by_own_check": own, "caught_by": caught,
-                      "summary": meta.get("summary", "")[:200]}
-        print(f"{s}: own check {'CATCHES' if own else ('misses' if prop in checks else 'not built')}; caught by {sorted(caught)}")
-        for pid, ls in caught.items():
-            for l in ls[:1]:
-                print(f"      [{pid}] {l[:200]}")
-    json.dump(results, open(rp, "w"), indent=1)
-    # restore evidence of the clean tree
-    for pid, cmd in checks.items():
-        sh(cmd, cwd=V)
+            shutil.rmtree(tmp, ignore_errors=True)
+    try:
+        with ThreadPoolExecutor(max_workers=12) as ex:
+            for s, r in ex.map(one, seeds):
+                results[s] = r
+                if "error" in r:
+                    print(s, "PATCH DOES NOT APPLY")
+                    continue
+                print(f"{s}: own check {'CATCHES' if r['caught_by_own_check'] else 'misses'}; caught by {sorted(r['caught_by'])}")
+                for pid, ls in r["caught_by"].items():
+                    for l in ls[:1]:
+                        print(f"      [{pid}] {l[:200]}")
+    finally:
+        shutil.rmtree(base, ignore_errors=True)
+    json.dump(results, open(rp, "w"), indent=1, sort_keys=True)
+    missed = sorted(s for s, r in results.items() if not r.get("caught_by_own_check"))
+    print(f"{len(results)} seeds, own check misses: {missed}")
 
 
 main()
